@@ -215,7 +215,7 @@ class extract_visitor(NodeVisitor):
         if not PY2:
             for df in node.args.kw_defaults:
                 df and self.visit(df)
-            for a in node.args.args:
+            for a in getattr(node.args, 'posonlyargs', []) + node.args.args:
                 a.annotation and self.visit(a.annotation)
             for kw in node.args.kwonlyargs:
                 kw.annotation and self.visit(kw.annotation)
@@ -241,7 +241,7 @@ class extract_visitor(NodeVisitor):
         if not PY2:
             for d in node.args.kw_defaults:
                 d and self.visit(d)
-            for a in node.args.args:
+            for a in getattr(node.args, 'posonlyargs', []) + node.args.args:
                 a.annotation and self.visit(a.annotation)
             for kw in node.args.kwonlyargs:
                 kw.annotation and self.visit(kw.annotation)
